@@ -44,7 +44,8 @@ META = {
     'bounds': {'quick': '2 models x (build + 2 steps + finish) + 2 perturbations = 6300 interleavings per combination, 4 '
                         'combinations, 1 seed pair; matrix: 4 hash seeds x fresh interpreter, fork/spawn/batch under '
                         'hash seed 0', 'thorough': '(build + 3 steps + finish), 3-model combination, full matrix'},
-    'assumptions': ['seeds come from VERIF_SEED (seed*1000+i); the enumerated structure and the verdict do not depend '
+    'assumptions': ['falsy seeds (0, 0.0, empty string, False) are in the seed alphabet of the repeat and process-matrix legs '
+                    'for every VERIF_SEED', 'seeds come from VERIF_SEED (seed*1000+i); the enumerated structure and the verdict do not depend '
                     'on them', 'the scripted models draw only from model.random and through the library'],
 }
 
@@ -476,7 +477,7 @@ def matrix_fn(ctx, case):
 
 
 def matrix_cases(tier, seed):
-    seeds = [seed * 1000 + 1, seed * 1000 + 2, f'run-{seed}', 2.5 + seed]      # int, str and float seeds
+    seeds = [seed * 1000 + 1, seed * 1000 + 2, f'run-{seed}', 2.5 + seed, 0]      # int, str and float seeds
     steps = 4
     hs_all = [0, 1, 4242, 'random']
     hows = ['direct', 'fork', 'spawn', 'batch1', 'batch2']
@@ -501,6 +502,14 @@ def run(ctx):
             ctx.report(case, v)
     # seeds that are not ints (random.Random takes str and float seeds too)
     for kind, sd in (('plain', f'run-{ctx.seed}'), ('grid', 2.5 + ctx.seed), ('swap', f'experiment {ctx.seed}')):
+        case = {'leg': 'repeat', 'kind': kind, 'seed': sd, 'steps': 3}
+        ctx.traces += 2
+        try:
+            hbfs._guard(repeat_case, case)
+        except Violation as v:
+            ctx.report(case, v)
+    # seeds that are falsy (0, 0.0, '', False) are seeds like any other: "all seeds" includes the one most often used
+    for kind, sd in (('plain', 0), ('grid', 0), ('self_seeded', 0), ('space', 0.0), ('plain', ''), ('swap', False)):
         case = {'leg': 'repeat', 'kind': kind, 'seed': sd, 'steps': 3}
         ctx.traces += 2
         try:
